@@ -1016,6 +1016,8 @@ class Interp:
         for k, v in zip(e.keys, e.values):
             if k is None:
                 inner = self.eval(v, env)
+                if isinstance(inner, Rec) and "__kwargs__" in inner.methods:
+                    inner = inner.methods["__kwargs__"](self.ctx, inner, (), {})
                 if not isinstance(inner, dict):
                     raise Unsupported("** of non-concrete dict in dict display", e)
                 d.update(inner)
